@@ -104,6 +104,8 @@ def compare_file(hubsim, ops, timeout=1800):
             elif t[:1] == ['fallback']:
                 reason = t[1].split('=', 1)[1] if len(t) > 1 else '?'
                 res['fallbacks'][reason] = res['fallbacks'].get(reason, 0) + 1
+            elif y['result'] == 'halted':
+                res['halted_tx_ops'] = res.get('halted_tx_ops', 0) + 1  # the application stopped earlier: nothing is executed any more
             else:
                 res['errors'].append('tx mode printed no T line for operation %d: %s' % (i, x['op'][:200]))
         elif y['tinfo'] is not None:
@@ -142,6 +144,7 @@ def merge(results):
     for r in results:
         for k in ('ops', 'tx_ops', 'delivered'):
             tot[k] += r[k]
+        tot['halted_tx_ops'] = tot.get('halted_tx_ops', 0) + r.get('halted_tx_ops', 0)
         for k in ('fallbacks', 'delivered_results'):
             for a, n in r[k].items():
                 tot[k][a] = tot[k].get(a, 0) + n
